@@ -681,8 +681,27 @@ fn gen_module_chunks(rng: &mut Rng, p: &GenParams, ctx: &mut Ctx) -> Vec<String>
             gen_string(rng)
         ));
     }
-    if rng.chance(1, 4) {
-        chunks.push("/begin VARIANT_CODING VAR_NAMING NUMERIC VAR_SEPARATOR \".\" /end VARIANT_CODING".to_string());
+    if rng.chance(1, 2) {
+        // nested named lists of VARIANT_CODING in arbitrary (usually not alphabetical) order: sort() must leave the CONTENT of the
+        // block alone (these items carry their own position information, which sort() does not renumber)
+        let mut inner = String::new();
+        let mut crit: Vec<String> = vec![];
+        for _ in 0..rng.below(4) {
+            let n = gen_name(rng);
+            if !crit.contains(&n) {
+                inner.push_str(&format!(" /begin VAR_CRITERION {n} {} v1 v2 /end VAR_CRITERION", gen_string(rng)));
+                crit.push(n);
+            }
+        }
+        let mut vch: Vec<String> = vec![];
+        for _ in 0..rng.below(4) {
+            let n = gen_name(rng);
+            if !vch.contains(&n) {
+                inner.push_str(&format!(" /begin VAR_CHARACTERISTIC {n} {} /end VAR_CHARACTERISTIC", crit.join(" ")));
+                vch.push(n);
+            }
+        }
+        chunks.push(format!("/begin VARIANT_CODING VAR_NAMING NUMERIC VAR_SEPARATOR \".\"{inner} /end VARIANT_CODING"));
     }
     if rng.chance(1, 2) {
         let mut ids = vec![];
